@@ -48,6 +48,7 @@ type Case struct {
 	Calls   []Call   `json:"calls,omitempty"`
 	Workers [][]Call `json:"workers,omitempty"`
 	Trace   []int    `json:"trace,omitempty"`
+	Win     bool     `json:"win,omitempty"` // the identity manager emulates Windows
 }
 
 var names = []string{"u1", "u2", "g1", "g2", "root", ""}
@@ -116,9 +117,60 @@ func errKind(err error) string {
 	return "other:" + err.Error()
 }
 
-// apply runs the call on the real identity manager and renders the result
+// winNames: the identity manager under test emulates Windows. The model and the histories
+// keep speaking of "root" (user and group); the two documented Windows names are substituted
+// per name space on the way in and back on the way out.
+var winNames bool
+
+const (
+	winAdminUser  = "ContainerAdministrator"
+	winAdminGroup = "Administrators"
+)
+
+func newIdm() *memidm.MemIdm {
+	if winNames {
+		return memidm.NewWithOptions(&memidm.Options{OSType: avfs.OsWindows})
+	}
+	return memidm.NewWithOptions(&memidm.Options{OSType: avfs.OsLinux})
+}
+
+func userName(n string) string {
+	if winNames && n == "root" {
+		return winAdminUser
+	}
+	return n
+}
+
+func groupName(n string) string {
+	if winNames && n == "root" {
+		return winAdminGroup
+	}
+	return n
+}
+
+func backNames(s string) string {
+	if winNames {
+		s = strings.ReplaceAll(strings.ReplaceAll(s, winAdminUser, "root"), winAdminGroup, "root")
+	}
+	return s
+}
+
+func apply(idm avfs.IdentityMgr, c Call) (string, int, int) {
+	switch c.M {
+	case "AddGroup", "DelGroup", "LookupGroup":
+		c.A = groupName(c.A)
+	case "AddUser":
+		c.A, c.B = userName(c.A), groupName(c.B)
+	case "DelUser", "LookupUser":
+		c.A = userName(c.A)
+	}
+	r, u, g := applyRaw(idm, c)
+	return backNames(r), u, g
+}
+
+// applyRaw runs the call on the real identity manager and renders the result
 // with ids abstracted to "fresh"/"known" where the model cannot predict them.
-func apply(idm avfs.IdentityMgr, c Call) (res string, uid, gid int) {
+func applyRaw(idm avfs.IdentityMgr, c Call) (res string, uid, gid int) {
 	uid, gid = -1, -1
 	switch c.M {
 	case "AddGroup":
@@ -283,7 +335,7 @@ func (m *model) table(ids []int) string {
 var idRange = []int{-1, 0, 1, 999, 1000, 1001, 1002, 1003, 1004, 1005}
 
 func runSeq(c *vt.Ctx, calls []Call) *vt.Deviation {
-	idm := memidm.New()
+	idm := newIdm()
 	m := newModel()
 	mk := func(cl Call, clause, detail string) *vt.Deviation {
 		d := vt.Dev("prop", "C15", "op", cl.M, "clause", clause)
@@ -361,6 +413,7 @@ func TestCheck(t *testing.T) {
 			continue
 		}
 		var dev *vt.Deviation
+		winNames = cs.Win
 		switch cs.Kind {
 		case "conc":
 			dev, _ = runConc(c, cs.Workers, sched.Replay(cs.Trace))
@@ -378,9 +431,28 @@ func TestCheck(t *testing.T) {
 			c.Report(dev, cs)
 		}
 	}
+	winNames = false
 	if c.Replay != "" {
 		return
 	}
+
+	// the same histories on an identity manager that emulates Windows (other administrator names)
+	winNames = true
+	c.Rapid("seq-windows", c.Pick(1500, 30000), func(t *rapid.T) *vt.Failure {
+		var calls []Call
+		for n := rapid.IntRange(1, 25).Draw(t, "n"); n > 0; n-- {
+			calls = append(calls, drawCall(t))
+		}
+		if dev := runSeq(c, calls); dev != nil {
+			dev.Fields["os"] = "windows"
+			return &vt.Failure{Dev: dev, Replay: Case{Kind: "seq", Calls: calls, Win: true}}
+		}
+		if nontrivial(calls) {
+			c.NonTrivial(vt.Hash64("win", fmt.Sprint(calls)))
+		}
+		return nil
+	})
+	winNames = false
 
 	// sequential histories against the model
 	c.Rapid("seq", c.Pick(5000, 100000), func(t *rapid.T) *vt.Failure {
@@ -524,7 +596,7 @@ func runFree(c *vt.Ctx, ws [][]Call, runs int) []*vt.Deviation {
 	var devs []*vt.Deviation
 	for r := 0; r < runs && len(devs) == 0; r++ {
 		c.Eval(1)
-		idm := memidm.NewWithOptions(&memidm.Options{OSType: avfs.OsLinux})
+		idm := newIdm()
 		start := make(chan struct{})
 		var wg sync.WaitGroup
 		for _, w := range ws {
@@ -586,7 +658,7 @@ type pending struct {
 var last *pending
 
 func prepare(ws [][]Call) *pending {
-	p := &pending{idm: memidm.New(), outs: make([][]string, len(ws)), ids: make([][][2]int, len(ws))}
+	p := &pending{idm: newIdm(), outs: make([][]string, len(ws)), ids: make([][][2]int, len(ws))}
 	// fixed prefix so that deletes and lookups have something to meet
 	_, _ = p.idm.AddGroup("g2")
 	var progs []func()
